@@ -23,6 +23,7 @@ THEOREMS = ["C13_inv", "C13_history", "C13_outputs", "C13_duplicate_rejected", "
             "C13_quote_id", "C13_example", "C13_example_gen"]
 
 ABSENT = "zz#absent"
+NMUX = 2
 NAMESPACES = ["http://x/", "urn:a:b#", "x:y=", "HTTP://H/p/", "https://e.org/a/b/", "ftp://h/d/?q="]
 # plain / empty / colliding / needing escaping / URL structure (path, dot segments, authority, query, fragment, scheme)
 PROPOSALS = [None, "", "p", "p q", "a:b", "\x01p\x1f", "é", "p_0001", "(x)|y", "p/q?r=s&t#u", "\x7f",
@@ -83,11 +84,12 @@ def run_sdk(case):
     n = case["nstores"]
     stores = [model.DictObjectStore() for _ in range(n)]
     refs = [dict() for _ in range(n)]          # the oracle: identifier -> object, one dict per store
-    mux = model.ObjectProviderMultiplexer()
-    arrangement = []
+    # two multiplexers alive at once, both first built without an argument
+    muxes = [model.ObjectProviderMultiplexer() for _ in range(NMUX)]
+    arrs = [[] for _ in range(NMUX)]            # the oracle: which stores are behind which multiplexer, in order
     gens = []
     for ns, sel in case["gens"]:
-        gens.append(NamespaceIRIGenerator(ns, stores[sel] if sel < n else mux))
+        gens.append(NamespaceIRIGenerator(ns, stores[sel] if sel < n else muxes[min(sel - n, NMUX - 1)]))
     fails = []
 
     def bad(k, kind, code, msg):
@@ -105,8 +107,8 @@ def run_sdk(case):
             return [1, tok[id(r)]]
         return [96]
 
-    def ref_mux(i):
-        for k in arrangement:
+    def ref_mux(i, m=0):
+        for k in arrs[m]:
             if i in refs[k]:
                 return refs[k][i]
         return None
@@ -230,17 +232,25 @@ def run_sdk(case):
                     else:
                         bad(k, kind, "spurious-keyerror", f"{kind} raised KeyError")
             elif op[0] == "M":
-                arrangement = list(op[1])
-                mux.providers = [stores[i] for i in arrangement]
+                m = op[2] if len(op) > 2 else 0
+                arrs[m] = list(op[1])
+                muxes[m].providers = [stores[i] for i in arrs[m]]
+                out = [0]
+            elif op[0] == "MA":
+                # "create the multiplexer, then register the stores": append to .providers
+                m = op[2] if len(op) > 2 else 0
+                muxes[m].providers.append(stores[op[1]])
+                arrs[m] = arrs[m] + [op[1]]
                 out = [0]
             elif op[0] == "MC":
                 # a NEW multiplexer is constructed over the stores as they are now (possibly still empty)
-                arrangement = list(op[1])
-                mux = model.ObjectProviderMultiplexer([stores[i] for i in arrangement]) if (arrangement or k % 2) \
+                m = op[2] if len(op) > 2 else 0
+                arrs[m] = list(op[1])
+                muxes[m] = model.ObjectProviderMultiplexer([stores[i] for i in arrs[m]]) if (arrs[m] or k % 2) \
                     else model.ObjectProviderMultiplexer()
                 for g, (_, sel) in zip(gens, case["gens"]):
-                    if sel >= n:
-                        g.provider = mux
+                    if sel >= n and min(sel - n, NMUX - 1) == m:
+                        g.provider = muxes[m]
                 out = [0]
             elif op[0] in ("N", "NL"):
                 kdst = op[1]
@@ -262,7 +272,8 @@ def run_sdk(case):
                         bad(k, kind, "duplicate-accepted", "construction from objects with clashing identifiers did not raise KeyError")
                         expect = {}
                     stores[kdst], refs[kdst] = new, expect
-                    mux.providers = [stores[i] for i in arrangement]     # providers are re-bound to the new store
+                    for m in range(NMUX):                                 # providers are re-bound to the new store
+                        muxes[m].providers = [stores[i] for i in arrs[m]]
                     for g, (_, sel) in zip(gens, case["gens"]):
                         if sel == kdst:
                             g.provider = new
@@ -277,7 +288,7 @@ def run_sdk(case):
                 out = [8] + list(iri.encode("utf-8"))
                 if not isinstance(iri, str) or not iri.startswith(ns):
                     bad(k, "generate_id", "outside-namespace", "generated identifier does not start with the namespace")
-                known = (iri in refs[sel]) if sel < n else (ref_mux(iri) is not None)
+                known = (iri in refs[sel]) if sel < n else (ref_mux(iri, min(sel - n, NMUX - 1)) is not None)
                 if known:
                     bad(k, "generate_id", "known-id", "generated identifier is one the provider contains")
             else:
@@ -316,18 +327,19 @@ def run_sdk(case):
                             bad(k, kind, "spurious-keyerror", "lookup of a stored identifier raised KeyError")
                     if s.get(i) is not ref.get(i) or s.get(i, objs[0]) is not ref.get(i, objs[0]):
                         bad(k, kind, "wrong-object", "get(id, default) returned neither the stored object nor the default")
-                row += enc(lambda: mux.get_identifiable(i)) + enc(lambda: mux.get(i)) + enc(lambda: mux.get(i, objs[0]))
-                want = ref_mux(i)
-                try:
-                    r = mux.get_identifiable(i)
-                    if r is not want:
-                        bad(k, "mux", "not-first", "multiplexer did not answer with the first provider knowing the identifier")
-                except KeyError:
-                    if want is not None:
-                        bad(k, "mux", "keyerror", "multiplexer raised KeyError for an identifier a provider knows")
-                if mux.get(i) is not want or mux.get(i, objs[0]) is not (want if want is not None else objs[0]):
-                    bad(k, "mux", "get-default", "multiplexer.get(id, default) returned neither the first provider's "
-                        "object nor (for an identifier nobody knows) the default")
+                for m, mux in enumerate(muxes):       # every multiplexer, after every call
+                    row += enc(lambda: mux.get_identifiable(i)) + enc(lambda: mux.get(i)) + enc(lambda: mux.get(i, objs[0]))
+                    want = ref_mux(i, m)
+                    try:
+                        r = mux.get_identifiable(i)
+                        if r is not want:
+                            bad(k, "mux", "not-first", "multiplexer did not answer with the first of ITS providers knowing the identifier")
+                    except KeyError:
+                        if want is not None:
+                            bad(k, "mux", "keyerror", "multiplexer raised KeyError for an identifier a provider knows")
+                    if mux.get(i) is not want or mux.get(i, objs[0]) is not (want if want is not None else objs[0]):
+                        bad(k, "mux", "get-default", "multiplexer.get(id, default) returned neither the first provider's "
+                            "object nor (for an identifier nobody knows) the default")
                 rows.append(row)
             for x in objs:
                 rows.append([24] + [int(x in s) for s in stores])
@@ -372,15 +384,20 @@ def gen_case(rng, maxlen):
     ns, props, pool = gen_theme(rng)
     n = rng.choice([1, 2, 2, 3, 3])
     ngen = rng.randint(0, 2)
-    gens = [[ns if rng.random() < .8 else rng.choice(NAMESPACES), rng.randint(0, n)] for _ in range(ngen)]
+    gens = [[ns if rng.random() < .8 else rng.choice(NAMESPACES), rng.randint(0, n + NMUX - 1)] for _ in range(ngen)]
     ids = [p[0] for p in pool] + [ABSENT]
     nobj = len(pool)
     ops = []
     if rng.random() < .9:      # usual start-up order: the multiplexer is built over the still empty stores
-        ops.append([rng.choice(["M", "MC", "MC"]), [rng.randrange(n) for _ in range(rng.randint(1, n + 1))]])
+        ops.append([rng.choice(["M", "MC", "MC"]), [rng.randrange(n) for _ in range(rng.randint(1, n + 1))], 0])
+    if rng.random() < .6:      # the second multiplexer: often built empty, its stores registered afterwards
+        if rng.random() < .5:
+            ops.append(["MC", [], 1])
+        for _ in range(rng.randint(0, 2)):
+            ops.append(["MA", rng.randrange(n), 1])
     if gens and rng.random() < .7:      # fill the generator's provider, so that candidates are taken
         sel = gens[0][1]
-        k0 = sel if sel < n else (ops[0][1][0] if ops and ops[0][1] else 0)
+        k0 = sel if sel < n else (ops[0][1][0] if ops and ops[0][0] != "MA" and ops[0][1] else 0)
         for t in range(nobj):
             if rng.random() < .6:
                 ops.append(["S", k0, "add", t])
@@ -388,7 +405,9 @@ def gen_case(rng, maxlen):
     while len(ops) < L:
         r = rng.random()
         if r < .06:
-            ops.append([rng.choice(["M", "MC"]), [rng.randrange(n) for _ in range(rng.randint(0, n + 1))]])
+            ops.append(rng.choice([["M", [rng.randrange(n) for _ in range(rng.randint(0, n + 1))], rng.randrange(NMUX)],
+                                   ["MC", [rng.randrange(n) for _ in range(rng.randint(0, n + 1))], rng.randrange(NMUX)],
+                                   ["MA", rng.randrange(n), rng.randrange(NMUX)]]))
         elif r < .12:
             if rng.random() < .6:      # a store constructed from another store (or from itself), then both are used
                 ops.append(["N", rng.randrange(n), rng.randrange(n)])
@@ -428,7 +447,7 @@ def exhaustive_cases(maxlen, quick):
         for seq in itertools.product(alpha + new, repeat=L):
             two = any(o in new for o in seq)
             if L <= 2 or (L == 3 and (two or not quick)) or (L == 4 and not two):
-                res.append({"pool": pool, "nstores": 2, "gens": [], "ops": [["MC", [1, 0]]] + list(seq)})
+                res.append({"pool": pool, "nstores": 2, "gens": [], "ops": [["MA", 1, 0], ["MA", 0, 0], ["MA", 0, 1]] + list(seq)})   # two argument-less multiplexers
     return res, len(alpha) + len(new)
 
 
@@ -460,7 +479,8 @@ Definition oCI k i := WS (n k) (ContainsId i).
 Definition oCX k := WS (n k) ContainsOther.
 Definition oLN k := WS (n k) Len.
 Definition oIT k := WS (n k) Iter.
-Definition oM l := WMux (nl l).
+Definition oM m l := WMux (n m) (nl l).
+Definition oMA m k := WMuxApp (n m) (n k).
 Definition oN k j := WNewFrom (n k) (n j).
 Definition oNL k l := WNewList (n k) (nl l).
 Definition oG g p := WGen (n g) p.
@@ -469,8 +489,10 @@ Definition case (pool : list ident) (k : Z) (gens : list (string * Z)) (ops : li
 
 
 def coq_op(op):
+    if op[0] == "MA":
+        return f"oMA {op[2] if len(op) > 2 else 0} {op[1]}"
     if op[0] in ("M", "MC"):
-        return "oM " + coq_list(str(i) for i in op[1])
+        return f"oM {op[2] if len(op) > 2 else 0} " + coq_list(str(i) for i in op[1])
     if op[0] == "N":
         return f"oN {op[1]} {op[2]}"
     if op[0] == "NL":
@@ -558,7 +580,7 @@ def run(chk):
         chk.count(f"stores={case['nstores']}")
         chk.count(f"len={min(len(ops), 16)}")
         for o, t in zip(ops, trace):
-            chk.count("op=" + (o[2] if o[0] == "S" else {"M": "mux-arrange", "MC": "mux-construct", "G": "generate_id", "N": "construct-from-store", "NL": "construct-from-iterable"}[o[0]]))
+            chk.count("op=" + (o[2] if o[0] == "S" else {"M": "mux-arrange", "MC": "mux-construct", "MA": "mux-append", "G": "generate_id", "N": "construct-from-store", "NL": "construct-from-iterable"}[o[0]]))
             chk.count("out=" + {0: "None", 1: "object", 2: "None", 3: "bool", 4: "int", 5: "list", 6: "KeyError",
                                 8: "iri"}.get(t[0][0], "other"))
             if o[0] == "G" and t[0][0] == 8:
@@ -576,6 +598,12 @@ def run(chk):
                 chk.fail(f"C13:{kind}:{code}", msg, {"case": small, "failing_step": k,
                                                      "how": "tools/c13.py run_sdk(case) -> (trace, failure)"})
         terms.append(coq_case(case, trace))
+        if chk.hist.get("oracle_failures", 0) >= 200:
+            # the SDK fails the oracle wholesale (e.g. state leaking from case to case inside this process):
+            # the failing inputs are recorded, running thousands of further cases adds nothing
+            chk.cov["stopped_early"] = f"after {len(terms)} of {len(cases)} cases: 200 oracle failures"
+            cases = cases[:len(terms)]
+            break
         if len(chk.samples) < 4 and len(ops) >= 8 and case["gens"]:
             chk.samples.append({"case": case, "sdk_observation_last_step": trace[-1][:3]})
     # _quote_iri_segment on its own
